@@ -353,8 +353,9 @@ class MTVRPEnv(RL4COEnvBase):
                 # reset at depot
                 used_cap = used_cap * (actions[:, ii] != 0)
                 used_cap += demand[:, ii]
+                # compare each instance with its own vehicle capacity ([B] vs [B, 1] would broadcast to [B, B])
                 assert (
-                    used_cap <= td["vehicle_capacity"]
+                    used_cap <= td["vehicle_capacity"][:, 0]
                 ).all(), "Used more than capacity for {}: {}".format(feature, used_cap)
 
         _check_c1("demand_linehaul")
